@@ -74,18 +74,18 @@ Definition finds (name : string) (sp : mspec) : bool :=
 Definition entry_ok (name : string) (sp : mspec) : bool :=
   if is_dunder name then true else
   match sp with
-  | MUop op => negb (is_sym_text op) && finds op (MUop op)
+  | MUop op => negb (is_sym_text op) && negb (is_dunder op) && finds op (MUop op)
   | MBin op i m chk =>
-      if m then negb (is_sym_text op) && finds op (MBin op i m chk)
+      if m then negb (is_sym_text op) && negb (is_dunder op) && finds op (MBin op i m chk)
       else if i then mem_str op bin2_ops && negb (mem_str op kops) && (remap op_remap op ==s name) && negb (op ==s "**")
       else negb (is_sym_text op)
-  | MTri op i m => m && negb i && negb (is_sym_text op) && finds op (MTri op i m)
+  | MTri op i m => m && negb i && negb (is_sym_text op) && negb (is_dunder op) && finds op (MTri op i m)
   | MShift => negb (is_sym_text "shift") && finds "shift" MShift
   | MAround => negb (is_sym_text "around")
   | MMapv => negb (is_sym_text "mapv") && finds "mapv" MMapv
   | MTrimstr => negb (is_sym_text "trimstr") && finds "trimstr" MTrimstr
   | MCoalesce0 => negb (is_sym_text "coalesce") && finds "coalesce" (MBin "coalesce" false true true)
-  | MFmt op d k => negb (is_sym_text op) && finds op (MFmt op d k)
+  | MFmt op d k => negb (is_sym_text op) && negb (is_dunder op) && finds op (MFmt op d k)
   | MRBin _ | MNeg | MPos | MRPow => false
   end.
 
@@ -107,7 +107,7 @@ Proof. unfold finds. destruct (find_method name method_table) as [sp'|]; [|discr
 Definition step_ok (op : string) : bool :=
   match find_method (remap op_remap op) method_table with
   | Some (MBin op' i m chk) =>
-      if m then negb i && negb (is_sym_text op') && finds op' (MBin op' i m chk) && (remap op_remap op ==s op')
+      if m then negb i && negb (is_sym_text op') && negb (is_dunder op') && finds op' (MBin op' i m chk) && (remap op_remap op ==s op')
       else i && (mem_str op' kops || (mem_str op' bin2_ops && (remap op_remap op' ==s remap op_remap op) && negb (op' ==s "**")))
   | _ => false
   end.
